@@ -362,6 +362,16 @@ func famC06(g *Gen, o *Out, n int, thorough bool) {
 			}
 			bs = append(bs, g.BlockWith(d))
 		}
+		if g.pick(4) == 0 {
+			// tiny sections (identity CID, 0-3 bytes of data, stored): shorter than any read-ahead a
+			// resuming scan might use, as the last acknowledged section and in the middle
+			wo.sid = true
+			for _, at := range []int{nb, 1 + g.pick(nb)} {
+				d := g.bytes(g.pick(4))
+				ih, _ := mh.Sum(d, mh.IDENTITY, -1)
+				bs[at] = Blk{cid.NewCidV1(cid.Raw, ih), d}
+			}
+		}
 		o.HashBlocks(bs)
 		roots := g.Roots(bs[:1])
 		var base []byte
